@@ -1,5 +1,7 @@
 """C08 - conversion stabilises after one pass: emit(parse(emit(ir))) and the emission after one more parse are identical."""
 from harness.rt import *  # noqa: F401,F403
+from harness import gridrun
+from harness.gridrun import grid_ob  # noqa: F401  (obligation bodies call H.grid_ob)
 from harness.rt import mk_ob
 from harness import C01, C02, C03, C04
 
@@ -87,4 +89,5 @@ def obligations(tier, seed):
                               bounds="word_wrap on, emitter %s, C18 pool IR %d (long summary / prose / type strings), every width %d <= W < %d "
                               "(symbolic): second and third emission identical" % (kind, i, a, b), timeout=240 if tier == "quick" else 900,
                               path_timeout=120, funcs=FUNCS))
+    obs += gridrun.obligations('C08', tier, FUNCS)
     return obs
